@@ -7,8 +7,9 @@ A property module (wbmc/props/cXX.py) defines
                               simplest first.  The whole iterable is executed: nothing is sampled.
     run_case(case, seed)   -> dict with keys
           ok        : bool
-          nontrivial: falsy, or a hashable/str key identifying *what* non-trivial mechanism the
-                      case exercised (distinct keys are counted)
+          nontrivial: falsy; True (the case itself counts); a str/tuple key identifying *what*
+                      non-trivial mechanism the case exercised; or a list of such keys
+                      (distinct keys are counted)
           key       : (when not ok) stable finding key, e.g. "EIG.to_w90_file" — matched against
                       known_findings.json
           detail    : (when not ok) short human text
@@ -32,8 +33,11 @@ import traceback
 import warnings
 
 ROOT = os.path.dirname(os.path.dirname(os.path.abspath(__file__)))
-EVIDENCE_DIR = os.path.join(ROOT, "evidence")
-REPLAY_DIR = os.path.join(ROOT, "replays")
+# VERIF_OUT redirects evidence and replays (used when a check is pointed at a scratch copy of the
+# repository with WB_REPO, e.g. for seeded changes, so that /verif/evidence keeps the real tree's run)
+_OUT = os.environ.get("VERIF_OUT") or ROOT
+EVIDENCE_DIR = os.path.join(_OUT, "evidence")
+REPLAY_DIR = os.path.join(_OUT, "replays")
 FINDINGS_FILE = os.path.join(ROOT, "known_findings.json")
 
 
@@ -205,7 +209,7 @@ def report(mod, tier, seed, cases, results, wall, max_report=20):
         if nt:
             if nt is True:
                 nontrivial.add(canon(c))
-            elif isinstance(nt, (list, tuple, set)):
+            elif isinstance(nt, list):   # a list = several keys; anything else = one key
                 for x in nt:
                     nontrivial.add(canon(x))
             else:
